@@ -12,4 +12,6 @@ PLAN = {
     "C20": [("des", ["des/xcut.rs", "des/c05.rs"])],
     "C04": [("des", ["des/xcut.rs"])],
 }
-FIX_COMMITS = ["a3e134a"]
+# 'fix:' commits in /repo (repairs of genuine defects, see /verif/known_findings.json): des weak keys modulo parity,
+# TdesEde3 Debug name, rc5 name prints B, rc5 empty key
+FIX_COMMITS = ["a3e134a", "b8bed3c", "7f7d8df", "9f07434"]
